@@ -71,10 +71,42 @@ def canon_cache(c):
     return sorted(json.dumps(e, sort_keys=True) for e in (c or []))
 
 
+_EXECUTORS = []
+
+
+def install_executor_tracker():
+    """replicat leaves its snapshot-loader threads running when a command raises in the middle of `_load_snapshots` (they go
+    on downloading / storing into the cache directory); `settle()` waits for them so that consecutive commands of one harness
+    process do not overlap — clients of a history run one command at a time."""
+    import replicat.repository as rr
+    if getattr(rr.ThreadPoolExecutor, '_verif_tracked', False):
+        return
+    base = rr.ThreadPoolExecutor
+
+    class Tracked(base):
+        _verif_tracked = True
+
+        def __init__(self, *a, **kw):
+            super().__init__(*a, **kw)
+            _EXECUTORS.append(self)
+
+    rr.ThreadPoolExecutor = Tracked
+
+
+def settle(timeout=0.5):
+    while _EXECUTORS:
+        ex = _EXECUTORS.pop()
+        ex.shutdown(wait=False, cancel_futures=True)
+        for t in list(getattr(ex, '_threads', ())):
+            t.join(timeout)      # a thread parked for ever on a closed event loop never writes anything; do not wait for it
+
+
 def repo_on(world, ui, backend, cache_directory=None):
     """a fresh real Repository of user `ui` on `backend` (the world's or a copy of it)"""
     import dataclasses
     from .world import RecChunker
+    install_executor_tracker()
+    settle()
     u = world.users[ui]
     repo = R.unlock(backend, key=u.key if world.enc else None, password=u.password if world.enc else None,
                     concurrent=world.concurrent, cache_directory=cache_directory)
